@@ -958,6 +958,24 @@ impl Sym {
     pub fn is_finite(self) -> bool { match self.const_val() { Some(CVal::F(x)) => x.is_finite(), _ => true } }
     pub fn is_infinite(self) -> bool { match self.const_val() { Some(CVal::F(x)) => x.is_infinite(), _ => false } }
     pub fn to_f64(self) -> Option<f64> { self.const_val().map(cv_f) }
+    /// Does the term DAG of this value contain a variable whose name starts with `prefix`?
+    pub fn mentions(self, prefix: &str) -> bool {
+        with(|e| {
+            if self.node == LIT { return false; }
+            let mut seen = BTreeSet::new();
+            let mut stack = vec![self.node];
+            while let Some(i) = stack.pop() {
+                if !seen.insert(i) { continue; }
+                match &e.nodes[i as usize] {
+                    Node::Var(n) => { if n.starts_with(prefix) { return true; } }
+                    Node::Add(a, b) | Node::Sub(a, b) | Node::Mul(a, b) | Node::Div(a, b) | Node::Max(a, b) | Node::Min(a, b) | Node::Fun2(_, a, b) => { stack.push(*a); stack.push(*b); }
+                    Node::Neg(a) | Node::Abs(a) | Node::Sqrt(a) | Node::Fun1(_, a) => stack.push(*a),
+                    _ => {}
+                }
+            }
+            false
+        })
+    }
     pub fn show(self) -> String { with(|e| { let i = e.id(self); show_node(e, i, 0) }) }
 }
 
